@@ -174,6 +174,92 @@ theorem vmBin_no_mismatch (op : Op) (a b : Val) (hop : op ≠ .modulo) (ha : a.I
   all_goals exact bind_ne (tryCmp_kinds a b hrel) (by intro o _; simp)
 
 
+/-! ## `MOD` on a huge operand (was finding C12-a, repaired by /repo ec526c5) -/
+
+/-- The full statement (no exclusion of `MOD`). -/
+def OperatorStepFull : Prop :=
+  ∀ (op : Op) (a b : Val), a.InRange → b.InRange → KindsOk op a.tag b.tag →
+    vmBin binType op a b ≠ .err .typeMismatch
+
+theorem fitInt_numeric (n : Int) (w : Val) (h : fitInt n = .ok w) : w.tag ≠ .str := by
+  unfold fitInt at h
+  split at h
+  · injection h with h; subst h; simp [Val.tag]
+  · split at h
+    · injection h with h; subst h; simp [Val.tag]
+    · unfold mkDbl at h
+      split at h
+      · injection h with h; subst h; simp [Val.tag]
+      · cases h
+
+theorem roundV_numeric (a w : Val) (ha : a.tag ≠ .str) :
+    roundV a ≠ .err .typeMismatch ∧ (roundV a = .ok w → w.tag ≠ .str) := by
+  cases a with
+  | int n => exact ⟨by simp [roundV], fun h => by simp [roundV] at h; subst h; simp [Val.tag]⟩
+  | long n => exact ⟨by simp [roundV], fun h => by simp [roundV] at h; subst h; simp [Val.tag]⟩
+  | sgl q =>
+    simp only [roundV]
+    split
+    · refine ⟨?_, fun h => fitInt_numeric _ _ h⟩
+      unfold fitInt mkDbl
+      split <;> (try split) <;> (try split) <;> simp
+    · exact ⟨by simp, fun h => by cases h⟩
+  | dbl q =>
+    simp only [roundV]
+    split
+    · refine ⟨?_, fun h => fitInt_numeric _ _ h⟩
+      unfold fitInt mkDbl
+      split <;> (try split) <;> (try split) <;> simp
+    · exact ⟨by simp, fun h => by cases h⟩
+  | str s => exact absurd rfl ha
+
+/-- after the repair `MOD` never answers Type mismatch on numeric operands -/
+theorem modulo_no_mismatch (a b : Val) (ha : a.tag ≠ .str) (hb : b.tag ≠ .str) :
+    modulo a b ≠ .err .typeMismatch := by
+  unfold modulo
+  apply bind_ne (roundV_numeric a a ha).1
+  intro ra hra
+  apply bind_ne (roundV_numeric b b hb).1
+  intro rb hrb
+  have hrbn := (roundV_numeric b rb hb).2 hrb
+  cases rb with
+  | str s => exact absurd rfl hrbn
+  | int n =>
+    simp only [isApproxZero]
+    split
+    · rename_i heq; simp at heq
+    · simp
+    · first | (split <;> simp) | simp
+  | long n =>
+    simp only [isApproxZero]
+    split
+    · rename_i heq; simp at heq
+    · simp
+    · first | (split <;> simp) | simp
+  | sgl q =>
+    simp only [isApproxZero]
+    split
+    · rename_i heq; simp at heq
+    · simp
+    · first | (split <;> simp) | simp
+  | dbl q =>
+    simp only [isApproxZero]
+    split
+    · rename_i heq; simp at heq
+    · simp
+    · first | (split <;> simp) | simp
+
+/-- **The operator step holds for every operator**, `MOD` included, on the repaired code. -/
+theorem operatorStepFull_holds : OperatorStepFull := by
+  intro op a b ha hb hk
+  by_cases hop : op = .modulo
+  · subst hop
+    simp only [vmBin]
+    rcases hk with ⟨h1, h2⟩ | ⟨_, _, h3⟩
+    · exact modulo_no_mismatch a b h1 h2
+    · rcases h3 with h3 | h3 <;> simp [isRel] at h3
+  · exact vmBin_no_mismatch op a b hop ha hb hk
+
 /-! ## Soundness of the checker on expressions -/
 
 section Sound
@@ -207,14 +293,13 @@ def SemWF (Γ : Env κ) (σ : Sem κ) : Prop :=
   (∀ b vs, kindOf (σ.bi b vs).tag = kindOf (biRet b) ∧ (σ.bi b vs).InRange)
 
 mutual
-/-- Literals are values of their own type (what the parser produces) and the expression has no `MOD`
-(the exclusion of the known finding C12-a). -/
+/-- Literals are values of their own type (what the parser produces). -/
 def Good : Expr κ → Prop
   | .lit v => v.InRange
   | .var _ => True
   | .paren e => Good e
   | .un _ e => Good e
-  | .bin op l r => op ≠ .modulo ∧ Good l ∧ Good r
+  | .bin _ l r => Good l ∧ Good r
   | .call _ args => GoodL args
   | .bi _ args => GoodL args
 def GoodL : Exprs κ → Prop
@@ -379,15 +464,15 @@ theorem C12_type_sound (Γ : Env κ) (σ : Sem κ) (hσ : SemWF Γ σ) :
     simp only [walk, nodes, firstSome_append] at hb hf
     split at ht
     · next ta tb hta htb =>
-      have ihl := C12_type_sound Γ σ hσ l ta ⟨hta, hb.1, hf.1⟩ hg.2.1
-      have ihr := C12_type_sound Γ σ hσ r tb ⟨htb, hb.2.1, hf.2.1⟩ hg.2.2
+      have ihl := C12_type_sound Γ σ hσ l ta ⟨hta, hb.1, hf.1⟩ hg.1
+      have ihr := C12_type_sound Γ σ hσ r tb ⟨htb, hb.2.1, hf.2.1⟩ hg.2
       simp only [eval]
       constructor
       · apply bind_ne ihl.1
         intro a ha
         apply bind_ne ihr.1
         intro b hb'
-        exact vmBin_no_mismatch op a b hg.1 (ihl.2 a ha).2 (ihr.2 b hb').2
+        exact operatorStepFull_holds op a b (ihl.2 a ha).2 (ihr.2 b hb').2
           (kindsOk_congr (ihl.2 a ha).1 (ihr.2 b hb').1 (kindsOk_of_table ht))
       · intro w hw
         obtain ⟨a, ha, hw⟩ := RbThm.C06.bind_ok hw
@@ -661,91 +746,7 @@ theorem print_line_rejected (Γ : Env κ) (row : Nat) (items : Exprs κ) (i : Na
 
 end Sound
 
-/-! ## `MOD` on a huge operand (was finding C12-a, repaired by /repo ec526c5) -/
-
-/-- The full statement (no exclusion of `MOD`). -/
-def OperatorStepFull : Prop :=
-  ∀ (op : Op) (a b : Val), a.InRange → b.InRange → KindsOk op a.tag b.tag →
-    vmBin binType op a b ≠ .err .typeMismatch
-
-theorem fitInt_numeric (n : Int) (w : Val) (h : fitInt n = .ok w) : w.tag ≠ .str := by
-  unfold fitInt at h
-  split at h
-  · injection h with h; subst h; simp [Val.tag]
-  · split at h
-    · injection h with h; subst h; simp [Val.tag]
-    · unfold mkDbl at h
-      split at h
-      · injection h with h; subst h; simp [Val.tag]
-      · cases h
-
-theorem roundV_numeric (a w : Val) (ha : a.tag ≠ .str) :
-    roundV a ≠ .err .typeMismatch ∧ (roundV a = .ok w → w.tag ≠ .str) := by
-  cases a with
-  | int n => exact ⟨by simp [roundV], fun h => by simp [roundV] at h; subst h; simp [Val.tag]⟩
-  | long n => exact ⟨by simp [roundV], fun h => by simp [roundV] at h; subst h; simp [Val.tag]⟩
-  | sgl q =>
-    simp only [roundV]
-    split
-    · refine ⟨?_, fun h => fitInt_numeric _ _ h⟩
-      unfold fitInt mkDbl
-      split <;> (try split) <;> (try split) <;> simp
-    · exact ⟨by simp, fun h => by cases h⟩
-  | dbl q =>
-    simp only [roundV]
-    split
-    · refine ⟨?_, fun h => fitInt_numeric _ _ h⟩
-      unfold fitInt mkDbl
-      split <;> (try split) <;> (try split) <;> simp
-    · exact ⟨by simp, fun h => by cases h⟩
-  | str s => exact absurd rfl ha
-
-/-- after the repair `MOD` never answers Type mismatch on numeric operands -/
-theorem modulo_no_mismatch (a b : Val) (ha : a.tag ≠ .str) (hb : b.tag ≠ .str) :
-    modulo a b ≠ .err .typeMismatch := by
-  unfold modulo
-  apply bind_ne (roundV_numeric a a ha).1
-  intro ra hra
-  apply bind_ne (roundV_numeric b b hb).1
-  intro rb hrb
-  have hrbn := (roundV_numeric b rb hb).2 hrb
-  cases rb with
-  | str s => exact absurd rfl hrbn
-  | int n =>
-    simp only [isApproxZero]
-    split
-    · rename_i heq; simp at heq
-    · simp
-    · first | (split <;> simp) | simp
-  | long n =>
-    simp only [isApproxZero]
-    split
-    · rename_i heq; simp at heq
-    · simp
-    · first | (split <;> simp) | simp
-  | sgl q =>
-    simp only [isApproxZero]
-    split
-    · rename_i heq; simp at heq
-    · simp
-    · first | (split <;> simp) | simp
-  | dbl q =>
-    simp only [isApproxZero]
-    split
-    · rename_i heq; simp at heq
-    · simp
-    · first | (split <;> simp) | simp
-
-/-- **The operator step holds for every operator**, `MOD` included, on the repaired code. -/
-theorem operatorStepFull_holds : OperatorStepFull := by
-  intro op a b ha hb hk
-  by_cases hop : op = .modulo
-  · subst hop
-    simp only [vmBin]
-    rcases hk with ⟨h1, h2⟩ | ⟨_, _, h3⟩
-    · exact modulo_no_mismatch a b h1 h2
-    · rcases h3 with h3 | h3 <;> simp [isRel] at h3
-  · exact vmBin_no_mismatch op a b hop ha hb hk
+/-! ## `MOD` on a huge operand (was finding C12-a, repaired by /repo ec526c5): examples -/
 
 /-- the former witness of C12-a now raises Overflow -/
 example : vmBin binType .modulo (.int 1) (.dbl 10000000000) = .err .overflow := by decide +kernel
